@@ -5,17 +5,21 @@ package main
 // (back end "constfold"). DESIGN.md 2.5 kind `ground`.
 
 import (
+	"encoding/json"
 	"fmt"
 	"go/ast"
 	"go/constant"
 	"go/token"
 	"go/types"
 	"os"
+	"os/exec"
 	"path/filepath"
+	"reflect"
 	"regexp"
 	"sort"
 	"strconv"
 	"strings"
+	"sync"
 
 	"golang.org/x/tools/go/packages"
 )
@@ -399,6 +403,271 @@ func (g *groundCtx) jumpTests() {
 	}
 }
 
-func (g *groundCtx) constantsAllTargets(tier string) {}
-func (g *groundCtx) tags()                           {}
-func (g *groundCtx) actionTable()                    {}
+// ---- C19: constants and stubs across build targets ----
+
+var quickTargets = []string{"linux/amd64", "linux/386", "linux/arm", "linux/arm64", "linux/riscv64", "darwin/arm64", "windows/amd64"}
+
+func (g *groundCtx) uapi() map[string]uint64 {
+	read := func(f string) string {
+		d, _ := os.ReadFile(filepath.Join(g.e.VerifDir, "oracle", f))
+		return string(d)
+	}
+	m := map[string]uint64{}
+	hexU := regexp.MustCompile(`(?m)^#define\s+(SECCOMP_RET_\w+)\s+(0x[0-9a-fA-F]+)U`)
+	for _, x := range hexU.FindAllStringSubmatch(read("seccomp.h"), -1) {
+		v, _ := strconv.ParseUint(x[2], 0, 64)
+		m[x[1]] = v
+	}
+	dec := regexp.MustCompile(`(?m)^#define\s+(SECCOMP_SET_MODE_\w+|PR_SET_NO_NEW_PRIVS|EPERM|ENOSYS)\s+(\d+)`)
+	for _, f := range []string{"seccomp.h", "prctl.h", "errno-base.h", "errno.h"} {
+		for _, x := range dec.FindAllStringSubmatch(read(f), -1) {
+			v, _ := strconv.ParseUint(x[2], 10, 64)
+			m[x[1]] = v
+		}
+	}
+	shl := regexp.MustCompile(`(?m)^#define\s+(SECCOMP_FILTER_FLAG_\w+)\s+\(1UL << (\d+)\)`)
+	for _, x := range shl.FindAllStringSubmatch(read("seccomp.h"), -1) {
+		n, _ := strconv.ParseUint(x[2], 10, 64)
+		m[x[1]] = 1 << n
+	}
+	return m
+}
+
+// library constant (package seccomp) -> UAPI name
+var seccompConsts = map[string]string{
+	"ActionKillThread": "SECCOMP_RET_KILL_THREAD", "ActionKillProcess": "SECCOMP_RET_KILL_PROCESS", "ActionTrap": "SECCOMP_RET_TRAP",
+	"ActionErrno": "SECCOMP_RET_ERRNO", "ActionTrace": "SECCOMP_RET_TRACE", "ActionLog": "SECCOMP_RET_LOG", "ActionAllow": "SECCOMP_RET_ALLOW",
+	"ActionUserNotify": "SECCOMP_RET_USER_NOTIF", "FilterFlagTSync": "SECCOMP_FILTER_FLAG_TSYNC", "FilterFlagLog": "SECCOMP_FILTER_FLAG_LOG",
+	"errnoEPERM": "EPERM", "errnoENOSYS": "ENOSYS", "prSetNoNewPrivs": "PR_SET_NO_NEW_PRIVS",
+	"seccompSetModeStrict": "SECCOMP_SET_MODE_STRICT", "seccompSetModeFilter": "SECCOMP_SET_MODE_FILTER",
+}
+
+func (g *groundCtx) constantsAllTargets(tier string) {
+	uapi := g.uapi()
+	g.add("oracle.uapi", "oracle.uapi#ground.parsed", "UAPI oracle values parsed from the vendored headers", len(uapi) >= 15, fmt.Sprintf("%d values", len(uapi)), token.NoPos)
+	targets := quickTargets
+	if tier == "thorough" {
+		if out, err := exec.Command("go", "tool", "dist", "list").Output(); err == nil {
+			targets = strings.Fields(string(out))
+		}
+	}
+	// targets that type-checked on the unchanged tree
+	expected := map[string]bool{}
+	if data, err := os.ReadFile(filepath.Join(g.e.VerifDir, "expected_targets.json")); err == nil {
+		var l []string
+		json.Unmarshal(data, &l)
+		for _, t := range l {
+			expected[t] = true
+		}
+	}
+	type res struct {
+		target string
+		eng    *Engine
+		err    error
+	}
+	results := make([]res, len(targets))
+	sem := make(chan struct{}, 8)
+	var wg sync.WaitGroup
+	for i, t := range targets {
+		wg.Add(1)
+		go func(i int, t string) {
+			defer wg.Done()
+			sem <- struct{}{}
+			defer func() { <-sem }()
+			parts := strings.SplitN(t, "/", 2)
+			en, err := LoadEngine(g.e.RepoDir, g.e.VerifDir, parts[0], parts[1], []string{"verif"})
+			results[i] = res{t, en, err}
+		}(i, t)
+	}
+	wg.Wait()
+	built := 0
+	for _, r := range results {
+		fn := "target." + r.target
+		if r.err != nil {
+			if expected[r.target] || len(expected) == 0 && strings.HasPrefix(r.target, "linux/") {
+				g.add(fn, fn+"#ground.builds", "module type-checks for "+r.target+" (it did on the unchanged tree)", false, r.err.Error(), token.NoPos)
+			} else {
+				g.notes = append(g.notes, "target "+r.target+" does not type-check (not in expected_targets.json): skipped")
+			}
+			continue
+		}
+		built++
+		g.targetChecks(r.target, r.eng, uapi)
+	}
+	g.add("targets", "targets#ground.count", fmt.Sprintf("build targets examined: %d of %d type-check", built, len(targets)), built >= 5, "too few targets built", token.NoPos)
+}
+
+func (g *groundCtx) targetChecks(target string, en *Engine, uapi map[string]uint64) {
+	fn := "target." + target
+	sp := en.PkgByName["seccomp"]
+	if sp == nil {
+		g.add(fn, fn+"#ground.pkg", "package seccomp loaded for "+target, false, "missing", token.NoPos)
+		return
+	}
+	sc := sp.Types.Scope()
+	for _, name := range sortedKeys(seccompConsts) {
+		c, ok := sc.Lookup(name).(*types.Const)
+		if !ok {
+			g.add(fn, fn+"#ground.const."+name, name+" is a constant", false, "not found", token.NoPos)
+			continue
+		}
+		v, _ := constant.Uint64Val(c.Val())
+		want, have := uapi[seccompConsts[name]]
+		if name == "errnoENOSYS" && strings.HasPrefix(target, "linux/mips") {
+			// arch/mips/include/uapi/asm/errno.h defines ENOSYS as 89 (the header is not part of this image; value recorded in
+			// /verif/oracle/PROVENANCE.md). No program can contain it: mips has no syscall table, GetInfo("") fails there.
+			want = 89
+		}
+		g.add(fn, fn+"#ground.const."+name, fmt.Sprintf("%s == %s (%#x) on %s", name, seccompConsts[name], want, target), have && v == want, fmt.Sprintf("library %#x, UAPI %#x", v, want), c.Pos())
+	}
+	// arch: audit ids are target independent constants (checked in C12); here: the x32 mask and the ids used by the prologue
+	if ap := en.PkgByName["arch"]; ap != nil {
+		if c, ok := ap.Types.Scope().Lookup("auditArchX86_64").(*types.Const); ok {
+			v, _ := constant.Uint64Val(c.Val())
+			g.add(fn, fn+"#ground.const.auditArchX86_64", "auditArchX86_64 == 0xc000003e on "+target, v == 0xc000003e, fmt.Sprintf("%#x", v), c.Pos())
+		}
+	}
+	goos := strings.SplitN(target, "/", 2)[0]
+	goarch := strings.SplitN(target, "/", 2)[1]
+	if goos != "linux" && goos != "android" { // GOOS=android satisfies the linux build constraint
+		// loader stubs: report unsupported, perform no call at all
+		for _, fname := range []string{"Supported", "SetNoNewPrivs", "LoadFilter"} {
+			fi := en.Funcs["seccomp."+fname]
+			if fi == nil {
+				g.add(fn, fn+"#ground.stub."+fname, fname+" exists on "+target, false, "missing", token.NoPos)
+				continue
+			}
+			calls := 0
+			ast.Inspect(fi.Decl.Body, func(n ast.Node) bool {
+				switch n.(type) {
+				case *ast.CallExpr, *ast.GoStmt, *ast.DeferStmt:
+					calls++
+				}
+				return true
+			})
+			g.add(fn, fn+"#ground.stub."+fname+".nocalls", fname+" stub on "+target+" contains no call expression (hence performs no system call)", calls == 0, fmt.Sprintf("%d calls", calls), fi.Decl.Pos())
+			if fname == "Supported" {
+				ok := false
+				if len(fi.Decl.Body.List) == 1 {
+					if rs, isR := fi.Decl.Body.List[0].(*ast.ReturnStmt); isR && len(rs.Results) == 1 {
+						if tv := sp.TypesInfo.Types[rs.Results[0]]; tv.Value != nil && tv.Value.Kind() == constant.Bool && !constant.BoolVal(tv.Value) {
+							ok = true
+						}
+					}
+				}
+				g.add(fn, fn+"#ground.stub.Supported.false", "Supported() is 'return false' on "+target, ok, "body is not a single 'return false'", fi.Decl.Pos())
+			}
+		}
+	}
+	// targets without syscall tables: GetInfo("") reports unsupported (by GetInfo's contract @unsupported, key = GOARCH)
+	if ap := en.PkgByName["arch"]; ap != nil {
+		init, pos := findVarInit(ap, "arches")
+		tabled := map[string]bool{}
+		present := map[string]string{}
+		if cl, ok := init.(*ast.CompositeLit); ok {
+			for _, el := range cl.Elts {
+				kv := el.(*ast.KeyValueExpr)
+				if tv := ap.TypesInfo.Types[kv.Key]; tv.Value != nil {
+					k := constant.StringVal(tv.Value)
+					present[k] = exprString(kv.Value)
+					vinit, _ := findVarInit(ap, exprString(kv.Value))
+					if ue, isU := vinit.(*ast.UnaryExpr); isU {
+						if icl, isCL := ue.X.(*ast.CompositeLit); isCL {
+							for _, f := range icl.Elts {
+								if fkv, ok := f.(*ast.KeyValueExpr); ok {
+									if id, ok := fkv.Key.(*ast.Ident); ok && id.Name == "SyscallNames" {
+										tabled[k] = true
+									}
+								}
+							}
+						}
+					}
+				}
+			}
+		}
+		wantTables := map[string]bool{"amd64": true, "386": true, "arm": true, "arm64": true}[goarch]
+		g.add(fn, fn+"#ground.goarch", fmt.Sprintf("GOARCH %s: arches has tables iff the architecture is one of amd64/386/arm/arm64 (else GetInfo(\"\") fails with the unsupported-architecture error and Policy.Assemble propagates it)", goarch),
+			tabled[goarch] == wantTables, fmt.Sprintf("arches[%q]=%s tables=%v", goarch, present[goarch], tabled[goarch]), pos)
+	}
+}
+
+// ---- C14: struct tags and the action name table ----
+
+func (g *groundCtx) tags() {
+	sp := g.e.pkgNamed("seccomp")
+	if sp == nil {
+		return
+	}
+	for _, tn := range []string{"Policy", "SyscallGroup", "NameWithConditions", "Condition"} {
+		obj := sp.Types.Scope().Lookup(tn)
+		if obj == nil {
+			g.add("seccomp."+tn, "seccomp."+tn+"#ground.tags", "type exists", false, "missing", token.NoPos)
+			continue
+		}
+		st, ok := obj.Type().Underlying().(*types.Struct)
+		if !ok {
+			continue
+		}
+		for i := 0; i < st.NumFields(); i++ {
+			f := st.Field(i)
+			if !f.Exported() {
+				continue
+			}
+			tag := reflect.StructTag(st.Tag(i))
+			key := func(k string) string { return strings.Split(tag.Get(k), ",")[0] }
+			c, y, j := key("config"), key("yaml"), key("json")
+			ok := c != "" && c == y && c == j
+			g.add("seccomp."+tn, fmt.Sprintf("seccomp.%s.%s#ground.tags", tn, f.Name()),
+				fmt.Sprintf("%s.%s: the config, yaml and json keys coincide (a value marshalled to YAML/JSON is read back into the same field by the config loader)", tn, f.Name()),
+				ok, fmt.Sprintf("config:%q yaml:%q json:%q", c, y, j), f.Pos())
+		}
+	}
+}
+
+func (g *groundCtx) actionTable() {
+	sp := g.e.pkgNamed("seccomp")
+	if sp == nil {
+		return
+	}
+	uapi := g.uapi()
+	init, pos := findVarInit(sp, "actionNames")
+	cl, ok := init.(*ast.CompositeLit)
+	if !ok {
+		g.add("seccomp.actionNames", "seccomp.actionNames#ground.literal", "actionNames is a map literal", false, "not a literal", pos)
+		return
+	}
+	got := map[string]uint64{}
+	for _, el := range cl.Elts {
+		kv := el.(*ast.KeyValueExpr)
+		ktv, vtv := sp.TypesInfo.Types[kv.Key], sp.TypesInfo.Types[kv.Value]
+		if ktv.Value == nil || vtv.Value == nil {
+			continue
+		}
+		v, _ := constant.Uint64Val(ktv.Value)
+		got[constant.StringVal(vtv.Value)] = v
+	}
+	want := map[string]string{"kill_thread": "SECCOMP_RET_KILL_THREAD", "kill_process": "SECCOMP_RET_KILL_PROCESS", "trap": "SECCOMP_RET_TRAP",
+		"errno": "SECCOMP_RET_ERRNO", "trace": "SECCOMP_RET_TRACE", "log": "SECCOMP_RET_LOG", "allow": "SECCOMP_RET_ALLOW"}
+	for _, n := range sortedKeys(want) {
+		v, have := got[n]
+		g.add("seccomp.actionNames", "seccomp.actionNames#ground.name."+n, fmt.Sprintf("action name %q denotes %s (%#x)", n, want[n], uapi[want[n]]), have && v == uapi[want[n]], fmt.Sprintf("have=%v value %#x", have, v), pos)
+	}
+	g.add("seccomp.actionNames", "seccomp.actionNames#ground.exactly7", "actionNames has exactly the seven documented names", len(got) == 7 && len(cl.Elts) == 7, fmt.Sprintf("%d entries", len(cl.Elts)), pos)
+	// Operations: the eight documented names
+	oinit, opos := findVarInit(sp, "Operations")
+	var ops []string
+	if ocl, ok := oinit.(*ast.CompositeLit); ok {
+		for _, el := range ocl.Elts {
+			if tv := sp.TypesInfo.Types[el]; tv.Value != nil {
+				ops = append(ops, constant.StringVal(tv.Value))
+			}
+		}
+	}
+	wantOps := []string{"Equal", "NotEqual", "GreaterThan", "LessThan", "GreaterOrEqual", "LessOrEqual", "BitsSet", "BitsNotSet"}
+	g.add("seccomp.Operations", "seccomp.Operations#ground.names", "Operations lists exactly the eight documented operation names", strings.Join(ops, ",") == strings.Join(wantOps, ","), strings.Join(ops, ","), opos)
+	low := map[string]bool{}
+	for _, o := range ops {
+		low[strings.ToLower(o)] = true
+	}
+	g.add("seccomp.Operations", "seccomp.Operations#ground.distinct_lower", "the operation names stay pairwise distinct under case folding", len(low) == len(ops), "collision", opos)
+}
